@@ -1,6 +1,7 @@
 package main
 
 import (
+	"strings"
 	"fmt"
 	"go/types"
 
@@ -171,6 +172,13 @@ func init() {
 		E.declKeys()
 		E.Assume("A-STAKING-MUT", "x/staking Delegate/Unbond(del,val): change only validator val's tokens/shares and the delegation (del,val); existence, status and jailing of every validator are kept; the module's staking hooks run and queue a rebalance (AfterDelegationModified / BeforeDelegationRemoved set the alliance flag); error conditions are not modelled (any error may be returned)")
 		s0 := m.stk()
+		if strings.HasPrefix(s0.S, "(") {
+			// name a compound version term (ite ...) so that it never occurs inside a quantifier pattern
+			nm := E.D.Fresh("stkcur", SInt)
+			m.AssumeT(Eq(nm, s0))
+			m.SetG("stk", nm)
+			s0 = nm
+		}
 		s1 := E.D.Fresh("stk", SInt)
 		ax := fmt.Sprintf("(forall ((v Bytes)) (! (and (= (stk_exists %[1]s v) (stk_exists %[2]s v)) (= (stk_status %[1]s v) (stk_status %[2]s v)) (= (stk_jailed %[1]s v) (stk_jailed %[2]s v)) (=> (not (= v %[3]s)) (and (= (stk_tokens %[1]s v) (stk_tokens %[2]s v)) (= (stk_dshares %[1]s v) (stk_dshares %[2]s v))))) :pattern ((stk_exists %[1]s v)) :pattern ((stk_status %[1]s v)) :pattern ((stk_tokens %[1]s v)) :pattern ((stk_dshares %[1]s v)) :pattern ((stk_jailed %[1]s v))))", s1.S, s0.S, val.S)
 		m.AssumeT(T(SBool, ax))
@@ -179,6 +187,21 @@ func init() {
 		ax3 := fmt.Sprintf("(forall ((a Bytes)) (! (=> (not (= a %[3]s)) (= (stk_bonded_of %[1]s a) (stk_bonded_of %[2]s a))) :pattern ((stk_bonded_of %[1]s a))))", s1.S, s0.S, del.S)
 		m.AssumeT(T(SBool, ax3))
 		return s0, s1
+	}
+	// x/distribution's staking hook BeforeDelegationSharesModified: the delegator's pending rewards on the validator are withdrawn to the
+	// delegator's account before the shares change (only when the delegation exists)
+	distrHook := func(m *Machine, del, val, ok *Term) {
+		E := m.E
+		E.Assume("A-DISTR-HOOK", "x/staking Delegate/Unbond on an existing delegation first withdraws the delegator's pending x/distribution rewards on that validator to the delegator's account (distribution hook BeforeDelegationSharesModified)")
+		pendSort := ArrSort(SBytes, ArrSort(SStr, SInt))
+		pend := m.GetG("pend", pendSort)
+		has := App(SBool, "stk_hasdel", m.stk(), del, val)
+		bank := m.Bank()
+		m.Z3Ext = true
+		row := T(ArrSort(SStr, SInt), fmt.Sprintf("((_ map (+ (Int Int) Int)) %s %s)", Select(bank, del).S, Select(pend, val).S))
+		cond := And(ok, has)
+		m.SetG("bank", Ite(cond, Store(bank, del, row), bank))
+		m.SetG("pend", Ite(cond, Store(pend, val, E.emptyCoins(false).M), pend))
 	}
 	hookFlag := func(m *Machine) {
 		// the module's own staking hooks queue a rebalance
@@ -204,6 +227,12 @@ func init() {
 		b2 := Store(b1, pool, toBal)
 		okv := E.D.Fresh("delegate_ok", SBool)
 		ok := And(okv, Or(Not(sub), funded), Gt(amt, IntLit(0)))
+		distrHook(m, del, val, ok)
+		bank = m.Bank()
+		fromBal = Store(Select(bank, del), bond, Sub(m.bankSelect(del, bond), amt))
+		b1 = Store(bank, del, fromBal)
+		toBal = Store(Select(b1, pool), bond, Add(Select(Select(b1, pool), bond), amt))
+		b2 = Store(b1, pool, toBal)
 		// success: tokens move, shares are issued
 		m.AssumeT(Implies(ok, And(
 			Eq(App(SInt, "stk_tokens", s1, val), Add(App(SInt, "stk_tokens", s0, val), amt)),
@@ -241,6 +270,7 @@ func init() {
 		amount := E.D.Fresh("unbonded", SInt)
 		m.AssumeT(Ge(amount, IntLit(0)))
 		ok := E.D.Fresh("unbond_ok", SBool)
+		distrHook(m, del, val, ok)
 		m.AssumeT(Implies(ok, And(
 			Eq(App(SInt, "stk_tokens", s1, val), Sub(App(SInt, "stk_tokens", s0, val), amount)),
 			Le(App(SDec, "stk_delshares", s1, del, val), App(SDec, "stk_delshares", s0, del, val)),
